@@ -323,7 +323,15 @@ func (x *exec) resolveFuncVar(st *State, fr *Frame, v ssa.Value) (*ssa.Function,
 	}
 	var fn *ssa.Function
 	var mc *ssa.MakeClosure
-	switch s := stores[0].(type) {
+	sv := stores[0]
+	for {
+		if ct, ok := sv.(*ssa.ChangeType); ok {
+			sv = ct.X
+			continue
+		}
+		break
+	}
+	switch s := sv.(type) {
 	case *ssa.MakeClosure:
 		fn = s.Fn.(*ssa.Function)
 		mc = s
@@ -536,6 +544,21 @@ func (x *exec) applyContract(st *State, fr *Frame, ins ssa.Instruction, ci calle
 			env.names[n] = args[i]
 		}
 	}
+	// a closure's contract may name the variables it captures: bound to the cells passed at this call
+	closureNames := func(target map[string]Value, at *State) {
+		if ci.fn == nil || len(ci.fn.FreeVars) == 0 || len(ci.bindings) != len(ci.fn.FreeVars) {
+			return
+		}
+		for i, fv := range ci.fn.FreeVars {
+			if _, clash := target[fv.Name()]; clash {
+				continue
+			}
+			cell := ci.bindings[i]
+			cell.T = fv.Type()
+			target[fv.Name()] = x.loadVia(at, x.ptrOf(cell))
+		}
+	}
+	closureNames(env.names, st)
 	ord := x.callOrdinal(ins, ci.key)
 	// preconditions
 	for i, cl := range fs.Requires {
@@ -574,8 +597,11 @@ func (x *exec) applyContract(st *State, fr *Frame, ins ssa.Instruction, ci calle
 	post := x.newEnv(st, fs)
 	post.old = pre
 	post.oldNames = env.names
+	closureNames(post.names, st)
 	for n, v := range env.names {
-		post.names[n] = v
+		if _, have := post.names[n]; !have {
+			post.names[n] = v
+		}
 	}
 	rn := resultNames(ci.sig)
 	for i := 0; i < res.Len(); i++ {
